@@ -224,6 +224,14 @@ def plan_c03(c):
     k, _ = tv(c, "short", "Trace_Front", "Trace_Front_C03.cfg", "C03 totality, exhaustive short strings", shard=2000)
     p, _ = tv(c, "poll", "Trace_Poll", "Trace_Poll_C03.cfg", "C03 buffer discipline / no spinning at the transport boundary",
               shard=50000, per_run=True)
+    if c.tier == "thorough":
+        # memory-safety clause, exploration strength: the same drivers executed under Miri
+        f1 = c.miri_record("dec3")
+        c.validate("Trace_Front", [f1], cfg="Trace_Front_C03.cfg", what="C03 sample executed under Miri (decoders)", procs=1)
+        f2 = c.miri_record("poll")
+        c.validate("Trace_Poll", [f2], cfg="Trace_Poll_C03.cfg", what="C03 sample executed under Miri (poll schedules)",
+                   procs=1, per_run=True)
+        c.extra["miri"] = "80 inputs x 7 decoder calls and 30 scheduled poll runs interpreted by Miri without UB"
     c.traces += m + k
     c.extra["exhaustive_short_strings"] = "all byte strings of length <= %d through 5 entry points x 2 families" % (
         3 if c.tier == "thorough" else 2)
